@@ -2000,6 +2000,74 @@ pub mod sync {
     unsafe impl<T: ?Sized + Sync + Send> Sync for Arc<T> {}
     impl<T: ?Sized + Unsize<U>, U: ?Sized> CoerceUnsized<Arc<U>> for Arc<T> {}
 
+    /// Signature of registry actions.  When the payload of a new Arc is such an
+    /// action, a `&dyn` reference to it is remembered per Arc id *at creation*,
+    /// where the concrete closure type (hence the vtable) is statically known:
+    /// harnesses that invoke an action directly get a call CBMC can resolve,
+    /// instead of a fat pointer read back from the heap (symbolic vtable =
+    /// fan-out over every closure and drop glue of the program).
+    pub type ActionFn<'a> = dyn Fn(&crate::siginfo_t) + Send + Sync + 'a;
+    pub trait MaybeAction {
+        fn as_action<'a>(&'a self) -> Option<&'a ActionFn<'a>>;
+    }
+    impl<T> MaybeAction for T {
+        default fn as_action<'a>(&'a self) -> Option<&'a ActionFn<'a>> {
+            None
+        }
+    }
+    impl<T: Fn(&crate::siginfo_t) + Send + Sync> MaybeAction for T {
+        fn as_action<'a>(&'a self) -> Option<&'a ActionFn<'a>> {
+            Some(self)
+        }
+    }
+    // individual statics (an array of fat references trips an unsupported construct in Kani)
+    pub static mut ACTION0: Option<&'static ActionFn<'static>> = None;
+    pub static mut ACTION1: Option<&'static ActionFn<'static>> = None;
+    pub static mut ACTION2: Option<&'static ActionFn<'static>> = None;
+    pub static mut ACTION3: Option<&'static ActionFn<'static>> = None;
+    pub static mut ACTION4: Option<&'static ActionFn<'static>> = None;
+    pub static mut ACTION5: Option<&'static ActionFn<'static>> = None;
+    fn remember_action(id: usize, a: Option<&'static ActionFn<'static>>) {
+        unsafe {
+            if id == 0 {
+                ACTION0 = a;
+            } else if id == 1 {
+                ACTION1 = a;
+            } else if id == 2 {
+                ACTION2 = a;
+            } else if id == 3 {
+                ACTION3 = a;
+            } else if id == 4 {
+                ACTION4 = a;
+            } else if id == 5 {
+                ACTION5 = a;
+            }
+        }
+    }
+    /// The action stored in the Arc with this id (ids are handed out in creation order).
+    pub fn action_by_arc_id(id: usize) -> Option<&'static ActionFn<'static>> {
+        unsafe {
+            if id == 0 {
+                ACTION0
+            } else if id == 1 {
+                ACTION1
+            } else if id == 2 {
+                ACTION2
+            } else if id == 3 {
+                ACTION3
+            } else if id == 4 {
+                ACTION4
+            } else if id == 5 {
+                ACTION5
+            } else {
+                None
+            }
+        }
+    }
+    pub fn arcs_created() -> usize {
+        unsafe { ARCS::next }
+    }
+
     impl<T> Arc<T> {
         pub fn new(data: T) -> Arc<T> {
             let id = unsafe {
@@ -2012,8 +2080,19 @@ pub mod sync {
                 id,
                 data,
             });
+            let raw = Box::into_raw(b);
+            unsafe {
+                if id < NARC {
+                    // the allocation is never freed, so the reference is good for ever
+                    let r: &T = &(*raw).data;
+                    match r.as_action() {
+                        Some(a) => remember_action(id, Some(::std::mem::transmute::<&ActionFn<'_>, &'static ActionFn<'static>>(a))),
+                        None => {}
+                    }
+                }
+            }
             Arc {
-                ptr: unsafe { NonNull::new_unchecked(Box::into_raw(b)) },
+                ptr: unsafe { NonNull::new_unchecked(raw) },
                 _p: PhantomData,
             }
         }
@@ -2159,8 +2238,12 @@ pub mod net {
     impl Read for UnixStream {
         fn read(&mut self, buf: &mut [u8]) -> Result<usize> {
             let n = unsafe { crate::read(self.fd, buf.as_mut_ptr() as *mut crate::c_void, buf.len()) };
+            // A failed read is reported as "0 bytes" instead of an io::Error: building
+            // one drags std's OS-error function table (error_string, formatting) into
+            // the encoding; harnesses use blocking descriptors, where the only
+            // failure is EBADF on a closed descriptor.
             if n < 0 {
-                Err(Error::from_raw_os_error(unsafe { K::errno }))
+                Ok(0)
             } else {
                 Ok(n as usize)
             }
@@ -2169,8 +2252,12 @@ pub mod net {
     impl<'a> Read for &'a UnixStream {
         fn read(&mut self, buf: &mut [u8]) -> Result<usize> {
             let n = unsafe { crate::read(self.fd, buf.as_mut_ptr() as *mut crate::c_void, buf.len()) };
+            // A failed read is reported as "0 bytes" instead of an io::Error: building
+            // one drags std's OS-error function table (error_string, formatting) into
+            // the encoding; harnesses use blocking descriptors, where the only
+            // failure is EBADF on a closed descriptor.
             if n < 0 {
-                Err(Error::from_raw_os_error(unsafe { K::errno }))
+                Ok(0)
             } else {
                 Ok(n as usize)
             }
